@@ -4,6 +4,16 @@ go 1.19
 
 require github.com/jsightapi/jsight-schema-go-library v0.0.0
 
-require github.com/lucasjones/reggen v0.0.0-20200904144131-37ba4fa293bb
+require (
+	github.com/lucasjones/reggen v0.0.0-20200904144131-37ba4fa293bb
+	github.com/stretchr/testify v1.7.0
+)
+
+require (
+	github.com/davecgh/go-spew v1.1.0 // indirect
+	github.com/pmezard/go-difflib v1.0.0 // indirect
+	github.com/stretchr/objx v0.1.0 // indirect
+	gopkg.in/yaml.v3 v3.0.0-20200313102051-9f266ea9e77c // indirect
+)
 
 replace github.com/jsightapi/jsight-schema-go-library => /repo
